@@ -81,6 +81,9 @@ O_LoadsBack(b) ==
                     \/ Evs[j].eq[x] = "same"
                     \* allowed normalisation (C02): an empty secret comes back unset
                     \/ Evs[j].eq[x] = "none" /\ Traces[tid].init.fields[x] = "bsecret"
+                    \* the saved value lies outside the domain of the format of this save
+                    \* (a tuple in json / bson): nothing is claimed about what comes back
+                    \/ ~InDomain(Evs[b].fmt, Basic(Traces[tid].init.fields[x], x, "K1"))
 
 ObsPreds(b) ==
     {n \in {"C19_Untouched", "C19_Exact", "C19_LoadsBack"} :
@@ -97,8 +100,12 @@ BadObs ==
         m == ev' IN
     IF m.op # e.op \/ m.i # e.i THEN {"op"}
     ELSE {n \in {"dest", "out", "wopens", "keyf", "wr", "eq"} :
-            In(m, n) /\ (~In(e, n) \/ IF n = "dest" THEN (m.dest # "?" /\ m.dest # e.dest)
-                                             ELSE m[n] # e[n])}
+            In(m, n) /\ (~In(e, n) \/ CASE n = "dest" -> (m.dest # "?" /\ m.dest # e.dest)
+                                          \* "?": a value outside the format's domain
+                                          [] n = "eq"   -> \/ DOMAIN m.eq # DOMAIN e.eq
+                                                           \/ \E x \in DOMAIN m.eq :
+                                                                 m.eq[x] # "?" /\ m.eq[x] # e.eq[x]
+                                          [] OTHER      -> m[n] # e[n])}
 
 Report ==
     IF ~ev'.vis THEN TRUE
